@@ -138,7 +138,7 @@ func checkC07(p *Prog, r *Report) {
 		found := false
 		for _, b := range vm.Blocks {
 			ret, ok := lastInstr(b).(*ssa.Return)
-			if !ok || len(ret.Results) != 1 || isNilConst(ret.Results[0]) {
+			if !ok || len(ret.Results) != 1 || isNilConst(retResults(ret)[0]) {
 				continue
 			}
 			fsNonNil := HasFact(ret, true, func(v ssa.Value) bool {
